@@ -432,6 +432,14 @@ def probe_layer() -> J:
                        "value": 10},
                       p_value("dflt", "u16", default=4660), p_value("last", "mmz")],
        "reserved-physconst-default")
+    # SYSTEM parameters: predefined kinds are filled in by the library when omitted, user-defined
+    # kinds (also ones that differ from a predefined kind by case only) have to be supplied
+    def sysp(name: str, kind: str, dop_name: str) -> J:
+        return {"p": "SYSTEM", "name": name, "byte": None, "bit": None, "dop": dop_name,
+                "sysparam": kind}
+    rq("p_system", [sid(), sysp("hr", "HOUR", "u8"), sysp("hr_user", "Hour", "u8"),
+                    sysp("yr", "YEAR", "u16"), sysp("own", "FooBar", "u8"), sysp("d", "day", "u8"),
+                    p_value("v", "u8")], "system-parameters")
     # defaults that are empty (a valid default for strings and byte fields)
     rq("p_empty_default", [sid(), p_value("txt", "ll16s", default=""), p_value("blob", "ll8", default=b""),
                            p_value("n", "u8")], "empty-defaults")
